@@ -869,13 +869,40 @@ def fam_rt(P, n, tier):
                 body = bytes(P.choice(b'ab"\\\n,xyZ9 \x80\xff\x01;?=') for _ in range(k2))
                 v.init = (body + b'\0' * v.size)[:v.size]
             vars.append(v)
+        if i % 3 == 2:
+            # the working buffer fitted to the READ text: exactly (text + NUL), or one / two bytes more or less
+            need = len(b'+V=' + py_read_text(vars)) + 1
+            sc.buf_size = max(8, need + P.choice([0, 0, 0, 1, 2, -1]))
+            sc.ubuf_size = 8
         c = Cmd('+V', vars=vars)
         sc.add_group([c])
         sc.feed('AT+V?\n')
         sc.drain(3000)
         sc.meta['rt'] = True
+        sc.meta['rt_expect'] = b'+V=' + py_read_text(vars)
         out.append(sc)
     return out
+
+
+def py_read_text(vars):
+    """the argument list the documented READ format prints for these variables' initial contents
+    (decimal, 0x + 2*size upper-case hex digits, upper-case hex pairs, quoted string with the escapes for
+    backslash, quote and LF), written from the README, not from the model"""
+    parts = []
+    for v in vars:
+        d = bytes(v.init)
+        if v.vtype == INT:
+            parts.append(b'%d' % int.from_bytes(d[:v.size], 'little', signed=True))
+        elif v.vtype == UINT:
+            parts.append(b'%d' % int.from_bytes(d[:v.size], 'little'))
+        elif v.vtype == HEX:
+            parts.append(b'0x' + (b'%%0%dX' % (2 * v.size)) % int.from_bytes(d[:v.size], 'little'))
+        elif v.vtype == BUFHEX:
+            parts.append(d[:v.size].hex().upper().encode())
+        else:
+            body = d[:v.size].split(b'\0')[0]
+            parts.append(b'"' + body.replace(b'\\', b'\\\\').replace(b'"', b'\\"').replace(b'\n', b'\\n') + b'"')
+    return b','.join(parts)
 
 
 def fam_wo(P, n, tier):
